@@ -150,6 +150,7 @@ func cmdExplore(args []string) {
 	maxexec := fs.Int64("maxexec", 0, "execution cap")
 	prof := fs.String("cpuprofile", "", "write cpu profile")
 	samples := fs.Bool("samples", false, "keep one execution per distinct outcome in the output")
+	prop := fs.String("prop", "", "record only violations of this property (others would use up the violation cap)")
 	fs.Parse(args)
 	if *prof != "" {
 		f, _ := os.Create(*prof)
@@ -158,6 +159,18 @@ func cmdExplore(args []string) {
 	}
 	ex, _ := makeExplorer(*name, *cfgs, *bound, *cache)
 	fmt.Sscanf(*shard, "%d/%d", &ex.Shard, &ex.NShards)
+	if *prop != "" {
+		inner := ex.Check
+		ex.Check = func(r *vsched.Result) []string {
+			var out []string
+			for _, d := range inner(r) {
+				if strings.HasPrefix(d, *prop+":") {
+					out = append(out, d)
+				}
+			}
+			return out
+		}
+	}
 	ex.MaxViol = *maxviol
 	ex.MaxExec = *maxexec
 	ex.KeepSamples = *samples
